@@ -139,3 +139,26 @@ def is_nontrivial(acceptable, boring=(1,)):
         if a is not None and not (len(a) == 1 and next(iter(a)) in boring):
             return True
     return False
+
+
+def debruijn(alphabet, n):
+    """de Bruijn sequence B(len(alphabet), n) as a list of symbols, linearised (first n-1 symbols appended) so that
+    every length-n window over the alphabet occurs exactly once: one long series that contains every local pattern."""
+    k = len(alphabet)
+    a = [0] * (k * n)
+    seq = []
+
+    def db(t, p):
+        if t > n:
+            if n % p == 0:
+                seq.extend(a[1:p + 1])
+        else:
+            a[t] = a[t - p]
+            db(t + 1, p)
+            for j in range(a[t - p] + 1, k):
+                a[t] = j
+                db(t + 1, t)
+
+    db(1, 1)
+    seq = seq + seq[: n - 1]
+    return [alphabet[i] for i in seq]
